@@ -70,8 +70,11 @@ class KexDH:  # pragma: nocover
 
     def send_init(self, s: SSH_Socket, init_msg: int = Protocol.MSG_KEXDH_INIT) -> None:
         r = random.SystemRandom()
-        self.__x = r.randrange(2, self.__q)
-        self.__e = pow(self.__g, self.__x, self.__p)
+        try:
+            self.__x = r.randrange(2, self.__q)
+            self.__e = pow(self.__g, self.__x, self.__p)
+        except ValueError:  # The server sent a degenerate group (i.e.: a modulus of 0 or 1).
+            raise KexDHException("Invalid DH group parameters (g: %u; p: %u)." % (self.__g, self.__p)) from None
         s.write_byte(init_msg)
         s.write_mpint2(self.__e)
         s.send_packet()
@@ -103,6 +106,12 @@ class KexDH:  # pragma: nocover
             self.out.d("KexDH.recv_reply(): received package_type == -1.")
             return None
 
+        try:
+            return self.__parse_reply(payload, parse_host_key_size)
+        except (struct.error, ValueError, IndexError):  # Note: UnicodeDecodeError is a sub-class of ValueError.
+            raise KexDHException("Error while parsing host key in reply: %s" % str(traceback.format_exc())) from None
+
+    def __parse_reply(self, payload: bytes, parse_host_key_size: bool) -> Optional[bytes]:
         # Get the host key blob, F, and signature.
         ptr = 0
         hostkey, _, ptr = KexDH.__get_bytes(payload, ptr)
@@ -402,7 +411,7 @@ class KexGroupExchange(KexDH):
 
             g = int(binascii.hexlify(payload[ptr:ptr + g_len]), 16)
             ptr += g_len
-        except struct.error:
+        except (struct.error, ValueError):
             raise KexDHException("Error while parsing modulus and generator during GEX init: %s" % str(traceback.format_exc())) from None
 
         # Now that we got the generator and modulus, perform the DH exchange
